@@ -33,4 +33,6 @@ func runC01(c *core.Check) {
 	}
 	streamTLC(c, core.TLCRun{Module: "MC_E1", Parts: 4, Consts: map[string]string{"MaxD": hd, "Level2": "\"heredoc\""}, Timeout: minutes(25)},
 		func(st core.State) { c01.Handle(c, st, []int{0}) })
+	// deep and bushy ASTs (several non-trivial operands, nesting up to MaxD) from random walks of MC_E1Deep
+	deepE1(c, true, func(st core.State) { c01.Handle(c, st, []int{0, 2}) })
 }
